@@ -384,7 +384,7 @@ func (c *Command) groupByName(name string) *Group {
 	for _, subc := range c.commands {
 		prefix := subc.Name + "."
 
-		if strings.HasPrefix(name, prefix) {
+		if strings.HasPrefix(name, prefix) && len(name) > len(prefix) {
 			if grp := subc.groupByName(name[len(prefix):]); grp != nil {
 				return grp
 			}
